@@ -37,6 +37,10 @@ type SiteResult struct {
 type FuncResult struct {
 	Key      string
 	Err      string
+	// Bounded != "": the deductive proof of this function was not applicable to the code as it stands (its loop
+	// invariants do not fit a rewritten loop, a helper with a loop has no contract ...); the function was instead
+	// explored exhaustively up to boundedUnroll iterations per loop, callees executed in place.  Never counted as proved.
+	Bounded string
 	Sites    []*SiteResult
 	Covers   int
 	CoverBad []string
@@ -110,6 +114,81 @@ func generateFunction(P *Program, key string, opts CheckOpts) *FuncResult {
 		return fr
 	}
 	return fr
+}
+
+const boundedUnroll = 5
+
+// boundedFallback re-examines a function whose contract-based proof could not be set up or failed only at
+// loop-invariant sites: all paths with at most boundedUnroll iterations of every loop, module callees executed in
+// place, every obligation (postconditions, panics, frame, preconditions of library contracts) discharged by the
+// solvers.  Returns the bounded result if every obligation is discharged, nil otherwise (the alarm then stands).
+func boundedFallback(P *Program, fr *FuncResult, opts CheckOpts, reason string) *FuncResult {
+	spec := P.Specs.Funcs[fr.Key]
+	if spec == nil || spec.Lemma {
+		return nil
+	}
+	fn := P.Funcs[spec.Key]
+	if fn == nil {
+		return nil
+	}
+	saved := cexUnroll
+	var ex *Exec
+	var err error
+	k := boundedUnroll
+	for ; k >= 2; k-- {
+		cexMode, cexUnroll = true, k
+		ex, err = VerifyFunc(P, fn, spec, opts.Prop)
+		cexMode, cexUnroll = false, saved
+		if err == nil && ex != nil && len(ex.obligs) > 0 && len(ex.obligs) <= 3000 {
+			break
+		}
+		if err != nil && !strings.Contains(err.Error(), "paths") {
+			break
+		}
+	}
+	if err != nil || ex == nil || len(ex.obligs) == 0 || len(ex.obligs) > 3000 {
+		if os.Getenv("GOCV_DEBUG") != "" {
+			fmt.Fprintf(os.Stderr, "BOUNDED-FAIL %s: generation: %v\n", fr.Key, err)
+		}
+		return nil
+	}
+	fr2 := &FuncResult{Key: fr.Key, Ex: ex}
+	solveFunction(fr2, opts)
+	if len(fr2.CoverBad) > 0 {
+		return nil
+	}
+	for _, s := range fr2.Sites {
+		if s.Status != "discharged" {
+			if os.Getenv("GOCV_DEBUG") != "" {
+				fmt.Fprintf(os.Stderr, "BOUNDED-FAIL %s: %s %s (%s)\n", fr.Key, s.Site, s.FailStat, s.Descr)
+			}
+			return nil
+		}
+	}
+	fr2.Bounded = fmt.Sprintf("%s: %s; explored instead: every path with at most %d iterations per loop, callees executed in place (%d obligations discharged) - bounded, not a proof", shortKey(spec.Key), reason, k, len(fr2.Sites))
+	return fr2
+}
+
+// loopOnlyFailure: did the function fail, and only at sites that speak about loop invariants?
+func loopOnlyFailure(fr *FuncResult) bool {
+	if fr.Err != "" || fr.Ex == nil || len(fr.CoverBad) > 0 {
+		return false
+	}
+	failed := 0
+	for _, s := range fr.Sites {
+		if s.Status == "discharged" {
+			continue
+		}
+		failed++
+		switch s.Kind {
+		case "inv-entry", "inv-step", "decreases":
+		default:
+			if !(s.Kind == "frame" && strings.Contains(s.Site, "/frame-loop#")) {
+				return false
+			}
+		}
+	}
+	return failed > 0
 }
 
 // solveFunction discharges the generated obligations (parallel solver calls).
@@ -426,6 +505,22 @@ func runCheck(repo, verifDir string, opts CheckOpts, overlay map[string][]byte, 
 		}(fr)
 	}
 	fwg.Wait()
+	// bounded stand-in where the contract-based proof does not apply to the code as it stands
+	for i, fr := range results {
+		reason := ""
+		switch {
+		case fr.Err != "" && !strings.Contains(fr.Err, "contract for a function that does not exist"):
+			reason = "the proof could not be set up (" + truncate(fr.Err, 160) + ")"
+		case loopOnlyFailure(fr):
+			reason = "the loop invariants of the contract do not hold for the loops as they are written now"
+		}
+		if reason == "" || known != nil && false {
+			continue
+		}
+		if b := boundedFallback(P, fr, opts, reason); b != nil {
+			results[i] = b
+		}
+	}
 	// summarise
 	nObl, nDis := 0, 0
 	byBackend := map[string]int{}
@@ -453,6 +548,10 @@ func runCheck(repo, verifDir string, opts CheckOpts, overlay map[string][]byte, 
 			trusted[t] = true
 		}
 		bounded = append(bounded, fr.Ex.bounded...)
+		if fr.Bounded != "" {
+			bounded = append(bounded, fr.Bounded)
+			fmt.Printf("BOUNDED: property=%s %s\n", prop, fr.Bounded)
+		}
 		for _, w := range fr.Ex.warnings {
 			warnings = append(warnings, shortKey(fr.Key)+": "+w)
 		}
@@ -567,6 +666,11 @@ func runCheck(repo, verifDir string, opts CheckOpts, overlay map[string][]byte, 
 		}
 		if corpus != nil {
 			ev.Coverage["must_fail_corpus"] = corpus
+		}
+		if len(bounded) > 0 {
+			// part of the property rests on bounded exploration on this tree: not a proof
+			ev.Level = "exploration"
+			ev.Coverage["level_note"] = "proof for the functions not listed under 'bounded'; bounded exploration for the listed ones"
 		}
 		ev.Assumptions = append([]string{
 			"the VC generator (go/ssa naive form -> SMT-LIB) and the SMT solvers are trusted",
